@@ -398,6 +398,7 @@ class Case:
         self.nontrivial = True
         self.impl_fail = []  # predicate failures found at generation time (implementation only)
         self.tags = []
+        self.rechecks = []   # (fn, args, stream, tok, canonical outcome) of deterministic calls, re-run at the end of the run
 
     # -- implementation + model in one go --------------------------------
     def call(self, fn, *args, op=None, stream="plain", with_entropy=False, compare=True, tok=None):
@@ -413,6 +414,8 @@ class Case:
         self.stream.append(stream)
         if not with_entropy and r.entropy:
             self.impl_fail.append(f"{fn} drew {len(r.entropy)} bytes of OS entropy although it is deterministic")
+        if not with_entropy and isinstance(fn, str):
+            self.rechecks.append((fn, [copy.deepcopy(a) if isinstance(a, bytearray) else a for a in args], stream, tok, canon_impl(r, tok)))
         r.index = len(self.lines) - 1
         return r
 
@@ -432,6 +435,23 @@ class Case:
         if self.key is not None:
             return self.key
         return hashlib.sha1("\n".join(self.lines).encode()).hexdigest()
+
+
+def recheck_sample(cases, rng, limit=600):
+    """Re-run a sample of the deterministic calls of this run, after everything else has run, in shuffled order:
+    a result that differs from the first time shows history dependence (caches, memoised state)."""
+    pool = [(c, rc) for c in cases for rc in c.rechecks]
+    rng.shuffle(pool)
+    n = 0
+    for c, (fn, args, stream, tok, want) in pool[:limit]:
+        if any(isinstance(a, _tr31.Header) for a in args):
+            continue
+        r = call_impl(fn, args, stream=stream)
+        n += 1
+        got = canon_impl(r, tok)
+        if got != want:
+            c.impl_fail.append(f"{fn}: the same call returned `{got[:120]}` when repeated at the end of the run, `{want[:120]}` the first time (history-dependent result)")
+    return n
 
 
 def reply_value(reply):
